@@ -14,7 +14,8 @@
           5 rendering the error panicked                                        (property violated)
    A case with corigin = 4 (PA) is one statement TEXT with what Optimizer.BuildPlan did with it:
    the composite twin Model/ParseCheck.parse_check (lexer, parser with the real mid-parse tests,
-   checker, call validation, buildFinalPlan's tests) is run on the text and compared -- accepted
+   checker, call validation, the folder on the select fields, buildFinalPlan's tests on the
+   folded fields) is run on the text and compared -- accepted
    / rejected, the error position, the stage that rejected (inside Parser.Parse or after it),
    and for accepted statements the checked trees (field references by name) and every
    statement / clause position; the references between the fields of a statement that passed the
@@ -34,6 +35,7 @@ From Coq Require Import String Ascii ZArith NArith List Bool.
 From KV Require Import Model.Token Model.Ast Model.ErrRender Model.ErrPos Spec.CaretSpec Model.Lexer.
 From KV Require Import Base.Flt Model.StmtParser Model.ParseCheck.
 From KV Require Model.Checker Proofs.SelectProofs.
+From KV Require Model.Value Model.Fold.
 Import ListNotations.
 Local Open Scope string_scope.
 Local Open Scope Z_scope.
@@ -144,6 +146,13 @@ Definition prov_code (c : ncase) : nat :=
 
 (* ---- corigin = 4: query text -> accept / reject through the composite twin ---- *)
 
+(* the parameters of the folder inside parse_check (buildFinalPlan looks at the FOLDED select
+   fields): no regular expression is modelled here -- a constant `=~` inside a select field puts
+   the text outside the model (ParseCheck.plan_oom), code 99 --, floats are printed by
+   Fold.pf_fmt_v *)
+Definition t3_re (pat text : string) : Value.res bool := Value.OutOfModel.
+Definition pa_parse_check (q : string) : pcres := parse_check prim_fops t3_re Fold.pf_fmt_v q.
+
 Fixpoint pa_expr_eqb (a b : expr) {struct a} : bool :=
   let list_eqb :=
     fix go (x y : list expr) : bool :=
@@ -227,7 +236,7 @@ Definition pa_ranked (s : stmt) : bool :=
   end.
 
 Definition pa_code (c : ncase) : nat :=
-  match parse_check prim_fops (cquery c) with
+  match pa_parse_check (cquery c) with
   | PCOutOfModel => 99
   | PCPanic | PCFuel | PCOther => 1
   | PCErr k z =>
@@ -245,7 +254,7 @@ Definition pa_code (c : ncase) : nat :=
 (* who decided, for the measured distribution: 0 accepted, 1 syntax, 2 mid-parse test, 3 checker,
    4 call validation, 5 buildFinalPlan, 9 outside the model *)
 Definition pa_class (q : string) : nat :=
-  match parse_check prim_fops q with
+  match pa_parse_check q with
   | PCOk _ _ _ => 0
   | PCErr KSyntax _ => 1 | PCErr KMidParse _ => 2 | PCErr KCheck _ => 3 | PCErr KCalls _ => 4
   | PCErr KPlan _ => 5
@@ -271,8 +280,6 @@ Definition pa_class (q : string) : nat :=
    position must then be one of the positions of the executed trees (what Properties/C17.v
    select_err_pos proves of every drain). *)
 From KV Require Model.Value Model.Eval Model.EvalVec Model.Fold Model.FoldStmt Model.ScanProj.
-
-Definition t3_re (pat text : string) : Value.res bool := Value.OutOfModel.
 
 Fixpoint t3_slots (l : list expr) : list (option EvalVec.kvpair) :=
   match l with
@@ -313,7 +320,7 @@ Definition t3_code (c : ncase) : nat :=
       match t3_spec_code c bcls with
       | S _ => 2%nat
       | O =>
-        match parse_check prim_fops (cquery c) with
+        match pa_parse_check (cquery c) with
         | PCOutOfModel => 99%nat
         | PCOk (StSelect x) (Checker.SSelect fields w _) false =>
             match s_order x, s_group x, s_limit x with
